@@ -455,7 +455,7 @@ pub fn check_c01() -> PropertyCheck {
   PropertyCheck {
     id: "C01",
     scenarios: vec![Box::new(C01)],
-    runs: (150_000, 20_000_000),
+    runs: (300_000, 20_000_000),
     rule: "case = random operator tree (depth <=3 quick / <=5 thorough, 1-3 hot inputs + cold/timed sources, whole catalogue, local or _threads flavour, FIFO or any-ready executor) + script of <=28 actions (next/error/complete on any input incl. after its terminal, run task #k, advance, jump); non-trivial = an event was sent after its input's terminal, or >=2 inputs terminated, or a run decision had >=2 ready tasks; distinct = distinct (case, behaviour) hashes",
     assumptions: vec!["producers can only misbehave through subjects (the Observer trait consumes an un-shared observer at its terminal)"],
   }
@@ -465,7 +465,7 @@ pub fn check_c02() -> PropertyCheck {
   PropertyCheck {
     id: "C02",
     scenarios: vec![Box::new(C02), Box::new(crate::props::c02t::C02Threads)],
-    runs: (150_000, 20_000_000),
+    runs: (300_000, 20_000_000),
     rule: "DES case = random operator tree with scheduler-using operators over-weighted + script with unsubscribe()/guard drop injected at a uniformly random position; after the cut the script keeps emitting and the executor runs to idle under its policy; thread case = one emitting thread vs one unsubscribing thread on a _threads pipeline under a seeded lock-level schedule; non-trivial = the cut happened",
     assumptions: vec!["a callback that had started before unsubscribe() returned is allowed to finish"],
   }
@@ -475,7 +475,7 @@ pub fn check_c17() -> PropertyCheck {
   PropertyCheck {
     id: "C17",
     scenarios: vec![Box::new(C17), Box::new(C17Multi)],
-    runs: (150_000, 20_000_000),
+    runs: (300_000, 20_000_000),
     rule: "pipelines: as C01 with is_closed() sampled after every action and after quiescence; composites: histories of <=10 append / append-closed / member-closes / unsubscribe / is_closed / clone / retain on MultiSubscription(Threads) with counting member stubs; non-trivial = >=3 samples / >=1 member and >=3 ops",
     assumptions: vec![],
   }
@@ -485,7 +485,7 @@ pub fn check_c18() -> PropertyCheck {
   PropertyCheck {
     id: "C18",
     scenarios: vec![Box::new(C18)],
-    runs: (80_000, 10_000_000),
+    runs: (160_000, 10_000_000),
     rule: "case = as C01/C02 (operator tree + action list incl. optional cut); executed once with every operator/subject/subscription in its local form and once in its thread-safe form under identical executor and clock decisions; the two probe traces (events and virtual times) and is_closed samples must be identical; non-trivial = at least one delivery",
     assumptions: vec!["single-threaded histories only (as the property states)"],
   }
